@@ -201,6 +201,9 @@ class P:
                         self.send(ip, col.ports[proto], data)
                     for (proto, ip, tid), (data, pub) in acked.items():
                         if sink.wait_for(lambda l: l == pub, 3.0) is None:
+                            # a datagram can be lost on a loaded machine (UDP): once more, with patience, before concluding anything
+                            self.send(ip, col.ports[proto], data)
+                        if sink.wait_for(lambda l: l == pub, 8.0) is None:
                             viol.append({"cases": [], "verdict": "after restart %d, data for a template acknowledged before the signal (%s exporter %s, template %d) is not decoded: templates were lost" % (cyc, proto, ip, tid),
                                          "datagram": data.hex(), "expected_published": pub.decode("latin1")[:300]}); break
                     if viol:
